@@ -44,6 +44,8 @@ def table(name):
         return T.TModel({k: base[k] for k in ["P", "e"]}, TREF, 1, 0)
     if name == "N":  # same schema, n_offsets differs
         return T.TModel(base, TREF, 1, 1)
+    if name == "Z":  # reference epoch exactly BMJD 0 (simulated data counting time from zero)
+        return T.TModel(base, 0.0, 1, 0)
     if name == "S":  # s in m/s
         c = dict(base)
         c["s"] = (np.array([0.0, 1500.0]), "m / s")
@@ -51,7 +53,7 @@ def table(name):
     raise KeyError(name)
 
 
-TABLES = ["A", "B", "C", "D", "E", "F", "G", "H", "J", "N", "S"]
+TABLES = ["A", "B", "C", "D", "E", "F", "G", "H", "J", "N", "S", "Z"]
 MODES = ["plain", "overwrite", "append", "append_overwrite"]
 
 
@@ -550,7 +552,7 @@ def build_batch_cases(quick):
 def main():
     chk = core.Check(
         PID, "model_checking",
-        "BFS over write/overwrite/append/read/batch-read histories (11 tables x 4 write modes {plain, overwrite, append, append+overwrite} + read + read_batch per state) on a real HDF5 "
+        "BFS over write/overwrite/append/read/batch-read histories (12 tables x 4 write modes {plain, overwrite, append, append+overwrite} + read + read_batch per state) on a real HDF5 "
         "file per state (applied at one re-used path per worker, so file-name-keyed state collides), "
         "deduplicated on the reference file model (asserted equal to the file content in every state); FITS write/overwrite/read "
         "histories of depth<=2; read_batch: every (start,stop,step) tuple and slice, every index array of length<=3 (repeats, any "
@@ -561,8 +563,8 @@ def main():
     chk.bounds = {"history_depth": depth}
     chk.merge(bfs(chk, depth))
     fits = [dict(kind="fits", history=h) for h in
-            [[[a, ow]] for a in ("A", "C", "F", "G", "D") for ow in (False, True)] +
-            [[[a, False], [b, ow]] for a in ("A", "F", "G") for b in ("A", "C", "F", "G") for ow in (False, True)]]
+            [[[a, ow]] for a in ("A", "C", "F", "G", "D", "Z", "E") for ow in (False, True)] +
+            [[[a, False], [b, ow]] for a in ("A", "F", "G", "Z") for b in ("A", "C", "F", "G", "Z") for ow in (False, True)]]
     chk.merge(core.parallel(shard, core.interleave(fits, core.NPROC)))
     bc = build_batch_cases(chk.quick)
     chk.bounds["batch_read_cases"] = len(bc)
